@@ -385,6 +385,8 @@ func (p *AmazonCognitoProvider) ValidateGroupMembership(email string, allowedGro
 			return nil, err
 		}
 
+		// the directory's answer replaces, rather than adds to, what the partly filled cache said
+		matchingGroups = []string{}
 		for _, allowedGroup := range allowedGroups {
 			for _, group := range groupMembership {
 				if allowedGroup == group {
